@@ -686,6 +686,88 @@ def oracle_c19(res, lf=None):
     return {'failures': fails, 'distinct': distinct, 'samples': samples, 'stats': stats}
 
 
+RULES['c14'] = ('dynamic descriptors (up to 200 fields, dense / sparse / huge numbers, names that are prefixes, extensions and case '
+                'variants of each other) queried through the public lookup functions with every key in {each key, key+-1, 0, 2^29+-1, '
+                '2^31+-1, 2^32-1, random} and every name in {each name, prefixes, extensions, case variants}; raw range tables with '
+                'negative / INT32_MIN / INT32_MAX runs; expected answer = linear scan done by this oracle; distinct by (table, key)')
+
+
+def oracle_c14(res, lf=None):
+    fails, distinct, samples = [], [], []
+    stats = {'by_number': 0, 'by_name': 0, 'hits': 0, 'misses': 0, 'range_tables': 0, 'range_keys': 0}
+    for i, l, out in iter_ops(res, lf):
+        t = l.split()
+        if out.startswith('CRASH') or out == '<missing>':
+            fails.append((i, 'crash (%s)' % out))
+            continue
+        if t[0] == 'lookup':
+            sch = schema_at(res, i)
+            m = sch.msgs[int(t[2])]
+            got = int(kv(out).get('idx', '-9'))
+            if t[1] == 'fnum':
+                key = int(t[3])
+                exp = next((k for k, f in enumerate(m.fields) if f.id == key), -1)
+                stats['by_number'] += 1
+            else:
+                exp = next((k for k, f in enumerate(m.fields) if f.name == t[3]), -1)
+                stats['by_name'] += 1
+            stats['hits' if exp >= 0 else 'misses'] += 1
+            if got != exp:
+                fails.append((i, 'lookup of %s %s returned index %d, a linear scan of the descriptor gives %d' % (t[1], t[3], got, exp)))
+            distinct.append(h(pbgen_block(res, i)[0] + l))
+        elif t[0] == 'ranges':
+            stats['range_tables'] += 1
+            n = int(t[1])
+            keys_at = 2 + 2 * (n + 1)
+            keys = []
+            vals = None
+            for x in t[keys_at:]:
+                if x.startswith('#vals='):
+                    vals = [int(v) for v in x[6:].split(',')]
+                else:
+                    keys.append(int(x))
+            got = [int(x) for x in kv(out).get('r', '').split(',') if x]
+            for key, g in zip(keys, got):
+                exp = vals.index(key) if key in vals else -1
+                stats['range_keys'] += 1
+                if g != exp:
+                    fails.append((i, 'int_range_lookup(%d) = %d over the table of %s..., expected %d' % (key, g, vals[:6], exp)))
+                    break
+            distinct.append(h(l))
+        elif t[0] == 'leaf' and t[1] == 'int_range_lookup':
+            distinct.append(h(l))
+        if len(samples) < 3 and len(l) < 200:
+            samples.append({'op': l, 'impl': out[:200]})
+    return {'failures': fails, 'distinct': distinct, 'samples': samples, 'stats': stats}
+
+
+RULES['c16'] = ('the same case files (well-formed messages packed three ways and round-tripped; valid, re-encoded and hostile byte strings '
+                'parsed) run through the default build and through {-DWORDS_BIGENDIAN, -DNDEBUG, gcc -O0, gcc -O2, clang-14}; every output '
+                'line of every variant must equal the default build, which must equal the Lean model; distinct by case hash')
+RULES['c17'] = ('one schema shared by N=8 threads, each unpacking / measuring / packing (3 serialisers) / checking / looking up / freeing '
+                'its own messages from the same 300+ inputs with the default allocator; per-thread digests must equal the sequential '
+                'digest; the same workload under ThreadSanitizer must report no race; distinct = (case file, digest) pairs')
+
+
+def oracle_c16(res, lf=None):
+    fails, distinct, samples = [], [], []
+    for i, l, out in iter_ops(res, lf):
+        if out.startswith('CRASH') or out == '<missing>':
+            fails.append((i, 'default build crashed (%s)' % out))
+        distinct.append(h(l))
+        if len(samples) < 2 and len(l) < 200:
+            samples.append({'op': l, 'impl': out[:200]})
+    return {'failures': fails, 'distinct': distinct, 'samples': samples, 'stats': {}}
+
+
+def oracle_c17(res, lf=None):
+    samples = []
+    for i, l, out in iter_ops(res, lf):
+        if len(samples) < 2 and len(l) < 200:
+            samples.append({'op': l, 'impl': out[:120]})
+    return {'failures': [], 'distinct': [], 'samples': samples, 'stats': {}}
+
+
 def match_known(known, pid, what, payload):
     """an OPEN finding of known_findings.json that matches this failure, else None"""
     for k in known.get('findings', []):
